@@ -191,7 +191,14 @@ fn recover_and_check(
     disk.set_files(files.clone());
     stats.recoveries += 1;
     local.evals += 1;
-    let mut core = match hc::open(&disk) {
+    // every other group of three crash points reopens the way an application that always passes its key
+    // pair does: HypercoreBuilder::new(storage).key_pair(kp).build() (no open mode) instead of open(true)
+    let with_key_pair = depth == 0 && (cfg.suffix_variant / 3) % 2 == 1;
+    if with_key_pair {
+        local.class("recoveries_opened_by_building_with_the_key_pair");
+    }
+    let opened = if with_key_pair { hc::create(&disk, hc::test_keypair()) } else { hc::open(&disk) };
+    let mut core = match opened {
         Ok(Ok(c)) => c,
         Ok(Err(e)) => {
             return Err(Failure::new(
